@@ -344,6 +344,7 @@ def run_config(ctx, env, cfg, windows=None, sequences=None):
             ctx.count('sequences_skipped')
             continue
         ctx.count('sequences_checked')
+        ctx.count('evaluations')  # a composed bound sequence is a case of its own (judged over its windows' deliveries)
         ctx.count(f'sequences_{semantic}')
         bounds = {DOMAIN[kind][i] for i in seq}
         if any(o in bounds for o in data) and len(set(data)) > 1:
